@@ -65,7 +65,9 @@ def dIdent : Sexp → Option Ident
   | _ => none
 
 def dPath : Sexp → Option MPath
-  | .list (.atom "p" :: l :: segs) => do some ⟨← dBool l, ← segs.mapM dIdent⟩
+  | .list (.atom "p" :: l :: segs) => do some ⟨← dBool l, ← segs.mapM dIdent, none⟩
+  | .list (.atom "pa" :: l :: .atom n :: t :: segs) => do
+    some ⟨← dBool l, ← segs.mapM dIdent, some (← n.toNat?, ← dToks t)⟩
   | _ => none
 
 def dNVal : Sexp → Option NVal
